@@ -16,3 +16,15 @@ def run(chk):
     cases = pegcheck.collect(chk, 'MC_C03', 'MC_C03_' + chk.tier, timeout_s=3000)
     chk.notes['tlc_enumerated_grammars'] = len(cases)
     pegcheck.replay(chk, cases, sample_every=20011)
+    # seeded random grammars made mostly of repetitions and separated lists, nested in each other
+    rng = random.Random(chk.seed * 7919 + 3)
+    n = 1000 if chk.tier == 'quick' else 12000
+    texts = gen.all_texts('ab,', 4) + [gen.T(x) for x in ['a,a,a', 'ab,ab,', 'a,,a', 'aaa,b', 'a,b,a,b', 'abab,,']]
+    rcases = []
+    for i in range(n):
+        rg = gen.RepGen(rng, refs=('R1',))
+        g = rg.grammar(3 if i % 2 else 2)
+        rcases.append({'id': i, 'g': g, 'cfg': {'prop': 'C03'}, 'runs': [['start', t, 0] for t in texts]})
+    pegcheck.with_oracle(chk, rcases)
+    chk.notes['random_grammars'] = len(rcases)
+    pegcheck.replay(chk, rcases, sample_every=29989)
